@@ -3,7 +3,7 @@ from . import _hub
 
 CONFIG = dict(
     modules=["SigModel.Props.C04"],
-    theorems=["SigModel.Hub.reachable_inv", "SigModel.Hub.C04_membership_agrees", "SigModel.Hub.C04_at_most_one_room", "SigModel.Hub.C04_no_empty_rooms", "SigModel.Hub.C04_room_listeners", "SigModel.Hub.C04_rooms_per_backend", "SigModel.Hub.C04_room_creation_atomic", "SigModel.Hub.C04_backend_requests_ordered_per_type", "SigModel.Hub.C04_view_is_replay", "SigModel.Hub.C04_join_filter_exact", "SigModel.Hub.C04_observer_publication_partial", "SigModel.Hub.C04_leave_keeps_observers_right", "SigModel.Hub.C04_join_keeps_observers_right", "SigModel.Hub.C04_switch_keeps_observers_right", "SigModel.Hub.C04_end_keeps_observers_right"],
+    theorems=["SigModel.Hub.reachable_inv", "SigModel.Hub.C04_membership_agrees", "SigModel.Hub.C04_at_most_one_room", "SigModel.Hub.C04_no_empty_rooms", "SigModel.Hub.C04_room_listeners", "SigModel.Hub.C04_rooms_per_backend", "SigModel.Hub.C04_room_creation_atomic", "SigModel.Hub.C04_backend_requests_ordered_per_type", "SigModel.Hub.C04_view_is_replay", "SigModel.Hub.C04_join_filter_exact", "SigModel.Hub.C04_observer_publication_partial", "SigModel.Hub.C04_leave_keeps_observers_right", "SigModel.Hub.C04_join_keeps_observers_right", "SigModel.Hub.C04_switch_keeps_observers_right", "SigModel.Hub.C04_end_keeps_observers_right", "SigModel.Hub.C04_views_change_by_events_only"],
     generated=["Hub"],
     harness=_hub.HARNESS,
     stats=_hub.stats,
@@ -15,7 +15,7 @@ CONFIG = dict(
 )
 
 MANIFEST = dict(
-    text="Lean 4 theorems over the hub model for every finite op sequence: a session is a member of a room exactly if its own record names that room (hence at most one room), rooms are never empty and list members once, room bus listeners are exactly the non-virtual members, rooms of different backends are disjoint (corollaries of a 25-clause structural invariant proved preserved by every operation); observer side: the replay of what is written to a session is its seenJoin list, the duplicate-join filter is exact, and from every reachable state a join/leave event published to a room updates the view of exactly the non-virtual members by exactly that event (C04_observer_publication_partial), a member leaving keeps the other members' views equal to the member set (C04_leave_keeps_observers_right) and a session joining from outside any room leaves every member and the joiner with the new member set (C04_join_keeps_observers_right; C04_switch_keeps_observers_right when it comes out of another room; C04_end_keeps_observers_right when a session ends by bye / expiry / kick; the lifting to 'view = member set in every reachable state' is evaluated by the driver after every step, not proved). The model is tied to the code by regenerated facts and a differential run of the real Hub (websocket clients, fake backend, loopback bus) whose tables and per-connection deliveries are compared with the model at every step; the judge checks the membership clauses on the implementation's own tables, compares the server's member sets with the statement's (latest successful join, not left/removed/bye/expired since — the model's rooms) and replays each connected member's join/leave events into its view of the room. First joins of one room are also issued concurrently (the fake backend releases the racing join replies together); that the lookup-and-create of a room is one critical section is a regenerated fact (C04_room_creation_atomic).",
+    text="Lean 4 theorems over the hub model for every finite op sequence: a session is a member of a room exactly if its own record names that room (hence at most one room), rooms are never empty and list members once, room bus listeners are exactly the non-virtual members, rooms of different backends are disjoint (corollaries of a 25-clause structural invariant proved preserved by every operation); observer side: the replay of what is written to a session is its seenJoin list, the duplicate-join filter is exact, and from every reachable state a join/leave event published to a room updates the view of exactly the non-virtual members by exactly that event (C04_observer_publication_partial), a member leaving keeps the other members' views equal to the member set (C04_leave_keeps_observers_right) and a session joining from outside any room leaves every member and the joiner with the new member set (C04_join_keeps_observers_right; C04_switch_keeps_observers_right when it comes out of another room; C04_end_keeps_observers_right when a session ends by bye / expiry / kick; nothing but join / leave events changes a view, C04_views_change_by_events_only; the lifting to 'view = member set in every reachable state' is evaluated by the driver after every step, not proved). The model is tied to the code by regenerated facts and a differential run of the real Hub (websocket clients, fake backend, loopback bus) whose tables and per-connection deliveries are compared with the model at every step; the judge checks the membership clauses on the implementation's own tables, compares the server's member sets with the statement's (latest successful join, not left/removed/bye/expired since — the model's rooms) and replays each connected member's join/leave events into its view of the room. First joins of one room are also issued concurrently (the fake backend releases the racing join replies together); that the lookup-and-create of a room is one critical section is a regenerated fact (C04_room_creation_atomic).",
     note="Synchronous routing layer: single hub, loopback bus, quiescence between ops (delivery orders of an asynchronous bus are not quantified over: the observer clause is proved for one publication from every reachable state, and otherwise checked by the judge on real traces and by the model's own executable viewBad after every step); the 'latest successful join' reading is state-based (the session's own record).",
     technique="Lean 4 proof (routing refinement over the hub model) + differential correspondence",
 )
